@@ -21,6 +21,25 @@ def hyYlowInner : List α → List α
   | _ :: rest => hyCentre rest
   | [] => []
 
+/-- the y-face at the lower end of a region (`hy.ylow[i, 0]`, `hy.corners[i, 0]`): with a region below, the half cell of this
+region plus the last half cell of the region below (`d[1] - d[0] + dbelow[-1] - dbelow[-2]`); at a target, twice the own half cell -/
+def hyYlowFirst (d : List α) (below : Option (List α)) : α :=
+  let own := d.getD 1 0 - d.getD 0 0
+  match below with
+  | some db => own + (db.getD (db.length - 1) 0 - db.getD (db.length - 2) 0)
+  | none => 2 * own
+
+/-- the y-face at the upper end (`hy.ylow[i, -1]`): `d[-1] - d[-2] + dabove[1] - dabove[0]`, or twice the own half cell -/
+def hyYlowLast (d : List α) (above : Option (List α)) : α :=
+  let own := d.getD (d.length - 1) 0 - d.getD (d.length - 2) 0
+  match above with
+  | some da => own + (da.getD 1 0 - da.getD 0 0)
+  | none => 2 * own
+
+/-- all ny+1 y-face values of a region, before the division by dy -/
+def hyYlowAll (d : List α) (below above : Option (List α)) : List α :=
+  hyYlowFirst d below :: hyYlowInner d ++ [hyYlowLast d above]
+
 /-- distances of one region measured from its start point: d[k] - d[startInd] -/
 def fromStart (d : List α) (startInd : Nat) : List α :=
   d.map (fun x => x - d.getD startInd 0)
